@@ -68,6 +68,31 @@ impl<B: MapBackend> RangerStore<SignedEntry> for Adapter<'_, B> {
     fn get_first(&mut self) -> anyhow::Result<RecordIdentifier> {
         Ok(self.0.first().unwrap_or_default())
     }
+    // test-only items of the trait (the crate's unit tests compile with every feature set)
+    #[cfg(test)]
+    fn get(&mut self, _key: &RecordIdentifier) -> anyhow::Result<Option<SignedEntry>> {
+        unimplemented!()
+    }
+    #[cfg(test)]
+    fn len(&mut self) -> anyhow::Result<usize> {
+        unimplemented!()
+    }
+    #[cfg(test)]
+    fn is_empty(&mut self) -> anyhow::Result<bool> {
+        unimplemented!()
+    }
+    #[cfg(test)]
+    fn prefixed_by(&mut self, _prefix: &RecordIdentifier) -> anyhow::Result<Self::RangeIterator<'_>> {
+        unimplemented!()
+    }
+    #[cfg(test)]
+    fn all(&mut self) -> anyhow::Result<Self::RangeIterator<'_>> {
+        unimplemented!()
+    }
+    #[cfg(test)]
+    fn entry_remove(&mut self, _key: &RecordIdentifier) -> anyhow::Result<Option<SignedEntry>> {
+        unimplemented!()
+    }
     fn get_fingerprint(&mut self, range: &Range<RecordIdentifier>) -> anyhow::Result<Fingerprint> {
         let mut fp = Fingerprint::empty();
         for e in self.0.range(range.x(), range.y()) {
